@@ -22,7 +22,7 @@ pub static DEF: CheckDef = CheckDef {
     run,
     quick_runs: 200_000,
     thorough_runs: 15_000_000,
-    rule: "case = real ApolloPersistedQueries extension over a simulated store (exact map with gated get/set, optional lost entries) or the real LruCacheStorage (<= 8 documents per run); 1-4 concurrent client tasks, each sending 1-4 requests: registrations (query + correct hash), hash-only requests, mismatched hashes (other document's hash, garbage, upper-case), wrong versions, malformed persistedQuery payloads, ordinary requests; every document echoes a unique number through a gated harness resolver so the executed document is observable. Oracle (reference model of registrations over the invoke/return history): a registration executes its own document; a hash-only request yields exactly the document whose text hashes to the supplied hash - and only if a registration of it was invoked before the request returned - or PersistedQueryNotFound; mismatched-hash, wrong-version and malformed requests fail and register nothing (no store write with a key that is not the SHA-256 of a registered text; no later hit); every client finishes. Non-trivial = a hash-only request overlapped a registration of the same document, or a rejected request was followed by a hash-only lookup of its hash; distinct = distinct event-order hashes.",
+    rule: "case = real ApolloPersistedQueries extension over a simulated store (exact map with gated get/set, optional lost entries) or the real LruCacheStorage (<= 8 documents per run); 1-4 concurrent client tasks, each sending 1-4 requests: registrations (query + correct hash), hash-only requests, mismatched hashes (other document's hash, garbage, upper-case, a proper prefix of the right hash incl. the empty string, the right hash with trailing characters), wrong versions, malformed persistedQuery payloads, ordinary requests; every document echoes a unique number through a gated harness resolver so the executed document is observable. Oracle (reference model of registrations over the invoke/return history): a registration executes its own document; a hash-only request yields exactly the document whose text hashes to the supplied hash - and only if a registration of it was invoked before the request returned - or PersistedQueryNotFound; mismatched-hash, wrong-version and malformed requests fail and register nothing (no store write with a key that is not the SHA-256 of a registered text; no later hit); every client finishes. Non-trivial = a hash-only request overlapped a registration of the same document, or a rejected request was followed by a hash-only lookup of its hash; distinct = distinct event-order hashes.",
     real: &["ApolloPersistedQueries extension (prepare_request)", "LruCacheStorage / scc HashCache (lru-store variant)", "Schema::execute pipeline"],
     stub: &["CacheStorage (simulated, gated; sim-store variants)", "clients", "resolvers (gated)", "async runtime"],
     assumptions: &["'found whenever registered' is not required (the property allows PersistedQueryNotFound)"],
@@ -38,6 +38,10 @@ enum Kind {
     Mismatch(usize, usize),
     GarbageHash(usize),
     UpperHash(usize),
+    /// own text with a proper prefix of its hash (length .1, may be 0)
+    PrefixHash(usize, usize),
+    /// own text with its hash followed by extra characters
+    ExtendedHash(usize),
     WrongVersion(usize),
     Malformed(usize, u32),
     Ordinary(usize),
@@ -158,6 +162,18 @@ fn build_request(kind: &Kind) -> Request {
             r.extensions.insert("persistedQuery".into(), pq(sha(&t).to_uppercase() + "00", 1));
             r
         }
+        Kind::PrefixHash(j, n) => {
+            let t = doc_text(*j);
+            let mut r = Request::new(t.clone());
+            r.extensions.insert("persistedQuery".into(), pq(sha(&t)[..*n].to_string(), 1));
+            r
+        }
+        Kind::ExtendedHash(j) => {
+            let t = doc_text(*j);
+            let mut r = Request::new(t.clone());
+            r.extensions.insert("persistedQuery".into(), pq(sha(&t) + "0", 1));
+            r
+        }
         Kind::WrongVersion(k) => {
             let t = doc_text(*k);
             let mut r = Request::new(t.clone());
@@ -198,7 +214,9 @@ fn run(variant: usize) -> CaseOut {
         for _ in 0..1 + draw(4) {
             let k = draw(n_docs as u32) as usize;
             let j = draw(n_docs as u32) as usize;
-            s.push(match draw(12) {
+            s.push(match draw(14) {
+                12 => Kind::PrefixHash(j, [0usize, 1, 32, 63][draw(4) as usize]),
+                13 => Kind::ExtendedHash(j),
                 0..=2 => Kind::Register(k),
                 3..=5 => Kind::HashOnly(k),
                 6 => {
@@ -276,7 +294,7 @@ fn run(variant: usize) -> CaseOut {
                     sim::count("probe:lookup-overlaps-registration");
                     out.nontrivial = true;
                 }
-                if hist.iter().any(|r| matches!(r.kind, Kind::WrongVersion(x) | Kind::Mismatch(_, x) if x == *k) && r.ret.as_ref().map(|x| x.0 < h.invoke).unwrap_or(false)) {
+                if hist.iter().any(|r| matches!(r.kind, Kind::WrongVersion(x) | Kind::Mismatch(_, x) | Kind::PrefixHash(x, _) | Kind::ExtendedHash(x) if x == *k) && r.ret.as_ref().map(|x| x.0 < h.invoke).unwrap_or(false)) {
                     sim::count("probe:lookup-after-rejected-registration");
                     out.nontrivial = true;
                 }
@@ -298,7 +316,7 @@ fn run(variant: usize) -> CaseOut {
                     }
                 }
             }
-            Kind::Mismatch(..) | Kind::GarbageHash(_) | Kind::UpperHash(_) | Kind::WrongVersion(_) | Kind::Malformed(..) => {
+            Kind::Mismatch(..) | Kind::GarbageHash(_) | Kind::UpperHash(_) | Kind::PrefixHash(..) | Kind::ExtendedHash(_) | Kind::WrongVersion(_) | Kind::Malformed(..) => {
                 if !is_err(&v) || v["data"].as_object().is_some() {
                     out.viol("C31/invalid-request-executed", format!("{:?} was executed: {v}; {desc}", h.kind));
                     return out;
